@@ -196,6 +196,9 @@ def onError (s : St) (e : Err) : St × List Out :=
     | none => (overwrite s1 e, os)
     | some e2 => ({ overwrite s1 e2 with phase := .stopped }, os)
 
+/-- does the event loop treat the end of the incoming stream in this state as an error? (generated table) -/
+def eofIsError (c : CState) : Bool := Conn.on_eof_arm_is_err.getD (Conn.on_eof_arm c) true
+
 /-- after an event handled without error: stop at `End` -/
 def settle (s : St) : St := if s.cs = .ended then { s with phase := .stopped } else s
 
@@ -207,9 +210,10 @@ def stepRunning (s : St) : Event → St × List Out
     | none => (settle s1, os)
     | some e => let (s2, os2) := onError s1 e; (s2, os ++ os2)
   | .eof =>
-    match s.cs with
-    | .closePipe | .discarding | .ended => ({ s with phase := .stopped }, [])
-    | _ => let (s2, os2) := onError s .illegalState; (s2, os2)
+    -- the event loop's table for a closed incoming stream (generated): an error unless the
+    -- endpoint no longer expects anything from the peer
+    if eofIsError s.cs then (let (s2, os2) := onError s .illegalState; (s2, os2))
+    else ({ s with phase := .stopped }, [])
   | .ctlClose we =>
     if Conn.on_control_close_ignored s.cs then (s, [])
     else
